@@ -11,7 +11,8 @@ LEVEL = "exploration"
 RUNS = {"quick": 3500, "thorough": 40000}
 RULE = ("seeded scenarios: a real client submits 3-15 requests (CON/NON mix, by URI) to 2-3 scripted peers in short "
         "intervals; per request the peer reacts with ACK, ACK + later separate response, piggybacked response, RST or "
-        "silence after a chosen delay; ICMP errors per remote and (separate configuration) failing sendmsg calls are "
+        "silence after a chosen delay, or with the response overtaking the ACK/RST (or no ACK at all); some messages "
+        "cannot be serialised when their turn comes; ICMP errors per remote and (separate configuration) failing sendmsg calls are "
         "injected while a backlog exists; systematic: all orderings of {ACK, RST, silence, ICMP} over three queued "
         "CONs. Non-trivial = a backlog of depth >= 1 formed or a fault fired; distinct = distinct event-sequence hash.")
 COMPONENTS_REAL = ["aiocoap.messagemanager", "aiocoap.tokenmanager", "aiocoap.protocol", "aiocoap.pipe",
@@ -22,7 +23,7 @@ ASSUMPTIONS = ["message IDs are assigned at submission, which gives an independe
                "an exchange ends when an ACK/RST with its MID from its remote is delivered, when its retransmissions are "
                "exhausted, or when a transport error for the remote is delivered"]
 EXPECTED_PROBES = ["server_originated_con", "backlog_depth_1", "backlog_depth_3", "release_after_ack", "release_after_rst", "flush_by_giveup",
-                   "flush_by_icmp", "non_while_blocked", "other_remote_while_blocked"]
+                   "flush_by_icmp", "non_while_blocked", "other_remote_while_blocked", "unsendable_message", "response_before_exchange_end"]
 
 REACTIONS = ["ack", "ack_sep", "piggy", "rst", "silent"]
 
@@ -41,6 +42,10 @@ def gen(r, tier):
                                          (1, "sep_rst"), (1, "sep_ack"), (1, "sep_only")]),
                     "delay": r.choice([0.005, 0.005, 0.05, 0.3, 1.0, 2.5]),
                     "mr": r.choice([0, 1, 2, 4]), "ato": r.choice([0.2, 0.5, 2.0])})
+        if r.chance(0.06):
+            # a message that cannot be put on the wire (the transport's send() raises): when its turn comes it fails,
+            # and the queue behind it must move on exactly as if it had never been there
+            ops[-1]["bad"] = True
     if r.chance(0.4):
         # the peer also asks the endpoint for a slow resource: the separate (confirmable) response competes for the
         # same NSTART slot as the endpoint's own requests to that peer
@@ -173,6 +178,18 @@ def execute(sim, scn):
 
     client = loop.run_until_complete(setup())
     me = sim.local_addr(client)
+    # a message the transport cannot serialise never reaches the socket: note the attempt (it has consumed a
+    # retransmission-jitter draw like any other first transmission of a CON)
+    mi = client.request_interfaces[0].token_interface.message_interface
+    mi_send = mi.send
+
+    def noting_send(message):
+        try:
+            return mi_send(message)
+        except Exception:
+            sim.log("net", "unsendable", int(message.mtype), message.mid)
+            raise
+    mi.send = noting_send
     plans = [dict() for _ in range(scn["npeers"])]
     tracker = common.Tracker(sim)
     for tag, op in enumerate(scn["ops"]):
@@ -184,6 +201,9 @@ def execute(sim, scn):
         spec = {"ACK_TIMEOUT": op["ato"], "MAX_RETRANSMIT": op["mr"]}
         tun = common.make_tuning(spec) if op["con"] else common.make_tuning(spec, base=Unreliable)
         msg = Message(code=GET, uri="coap://[%s]/t%d" % (peers[op["peer"]].addr[0], tag), transport_tuning=tun)
+        if op.get("bad"):
+            msg.payload = "text, not bytes: cannot be serialised"
+            sim.probe("unsendable_message")
         tracker.start(tag, client, msg, handle_blockwise=False)
         submitted.append((loop.now, tag, op["peer"], op["con"]))
 
@@ -237,6 +257,11 @@ def execute(sim, scn):
             data = bytes.fromhex(ev[4])
         elif ev[1] == "net" and ev[2] == "senderr" and ev[3] == fmt(me):
             data = bytes.fromhex(ev[6])
+        elif ev[1] == "net" and ev[2] == "unsendable":
+            if ev[3] == rc.CON and (ev[4],) not in seen_mids:
+                seen_mids.add((ev[4],))
+                di += 1
+            continue
         else:
             continue
         try:
@@ -306,8 +331,8 @@ def execute(sim, scn):
                     break
             ends.sort()
             end = ends[0] if ends else (float("inf"), "never")
-            ex.append({"tag": tag, "s": s, "tx": e0["t"], "end": end[0], "how": end[1], "mid": mid})
-        ex.sort(key=lambda x: (x["tx"], x["mid"]))
+            ex.append({"tag": tag, "s": s, "tx": e0["t"], "end": end[0], "how": end[1], "mid": mid, "pos": p0})
+        ex.sort(key=lambda x: x["pos"])  # order of first transmission (event log position; message IDs wrap around)
         # (a) never two open at once
         for a, b in zip(ex, ex[1:]):
             if b["tx"] < a["end"] - TOL:
@@ -353,6 +378,12 @@ def execute(sim, scn):
                                                                       "what": "separate response"})
                 continue
             rec = tracker.results[tag]
+            if scn["ops"][tag].get("bad"):
+                if not rec["done"]:
+                    sim.violation("C14/unsendable-message-forgotten", {"remote": fmt(R), "tag": tag, "submitted": s})
+                elif rec["outcome"] != "error":
+                    sim.violation("C14/unsendable-message-wrong-outcome", {"remote": fmt(R), "tag": tag})
+                continue
             if not rec["done"]:
                 sim.violation("C14/held-back-message-forgotten", {"remote": fmt(R), "tag": tag, "submitted": s})
             elif rec["outcome"] != "error" or not isinstance(rec["exception"], error.NetworkError):
@@ -371,6 +402,11 @@ def execute(sim, scn):
         # (e) NONs are never delayed
         for (s, tag, con) in subs:
             if con:
+                continue
+            if scn["ops"][tag].get("bad"):
+                rec = tracker.results[tag]
+                if not (rec["done"] and rec["outcome"] == "error"):
+                    sim.violation("C14/unsendable-message-wrong-outcome", {"remote": fmt(R), "tag": tag})
                 continue
             e0 = first_tx.get(tag)
             blocked = any(x["tx"] <= s + TOL and x["end"] > s + TOL for x in ex)
